@@ -172,18 +172,17 @@ def rule3_env(ctx, fl, rule='C12.3', only=None, units=None):
         if not roots:
             continue
         v = ctx.view(file, roots=roots, stops=(), flavour=fl)
-        # may-switch summary over the roots
+        # may-switch summary over every function left in the view (roots and functions that could not be inlined,
+        # e.g. recursive ones): contains a swap-type switch, calls application code, or calls such a function
         may = set()
-        for n in roots:
-            f = v.fn(n)
-            if f is not None and any(s.is_swap for s in switch_sites(f)):
+        for n, f in v.functions.items():
+            if any(s.is_swap for s in switch_sites(f)) or any(user_callback(f, c) for c in f.calls()):
                 may.add(n)
         changed = True
         while changed:
             changed = False
-            for n in roots:
-                f = v.fn(n)
-                if f is None or n in may:
+            for n, f in v.functions.items():
+                if n in may:
                     continue
                 if any(c.callee in may for c in f.calls()):
                     may.add(n)
